@@ -92,9 +92,54 @@ class LoopSpec(object):
     self.name = name
 
 
+def forall(lo, hi, fn):
+  """for every integer j with lo <= j < hi: fn(j).  Native execution enumerates; the evaluator quantifies."""
+  for j in range(lo, hi):
+    if not fn(j):
+      return False
+  return True
+
+
+class CallSpec(object):
+  """contract used instead of a callee's body.
+  kind 'opaque': the call is to code the function does not own (event handlers, sockets, callbacks): arguments
+  are evaluated, the result is unconstrained (a fresh value of `returns`), `havoc(I, st)` may weaken the state
+  according to the effect envelope stated in `envelope` (recorded as an assumption)."""
+  def __init__(self, kind="opaque", returns=None, envelope="no effect on the objects this contract mentions",
+               havoc=None, ghost=None):
+    self.kind = kind
+    self.returns = returns
+    self.envelope = envelope
+    self.havoc = havoc
+    self.ghost = ghost
+
+  def apply(self, I, f, args, kws, st, ctx, k, node):
+    from .values import fresh_int, fresh_bool
+    if self.ghost is not None:
+      self.ghost(I, st, f, args, kws)
+    if self.havoc is not None:
+      self.havoc(I, st, args, kws)
+    I.opaque_calls = getattr(I, "opaque_calls", 0) + 1
+    r = None
+    if self.returns == "int":
+      r = fresh_int("opaque")
+    elif self.returns == "bool":
+      r = fresh_bool("opaque")
+    elif callable(self.returns):
+      r = self.returns(I, st, args, kws)
+    return k(st, r)
+
+
 class Reject(Exception):
   """random sample does not satisfy the precondition"""
   pass
+
+
+def native(fn):
+  """builder helper callable from contract lambdas: under symbolic evaluation it is called natively with the
+  current evaluation state as first argument after self"""
+  fn._pyvc_native = True
+  return fn
 
 
 class BuilderBase(object):
@@ -245,6 +290,43 @@ class SymBuilder(BuilderBase):
   def list(self, items):
     return self.st.alloc("list", list, list(items))
 
+  def slist(self, name, attrs, maxlen=None):
+    """list of symbolic length whose elements are abstract: only the attribute paths in `attrs`
+    (name -> 'int' | 'bool'; a trailing '()' marks a method result) can be read"""
+    n = z3.Int(name + ".len")
+    self.st.add(n >= 0)
+    if maxlen is not None:
+      self.st.add(n <= maxlen)
+    self.inputs.append((name + ".len", "int", n))
+    arrs = {}
+    for a, kind in attrs.items():
+      rng = z3.BoolSort() if kind == "bool" else z3.IntSort()
+      arrs[a] = z3.Array("%s.%s" % (name, a), z3.IntSort(), rng)
+    ref = self.st.alloc("slist", list, {"len": n, "attrs": arrs, "name": name})
+    self.inputs.append((name, "slist", (n, arrs)))
+    return ref
+
+  def slist_attr(self, ref, attr):
+    return self.st.obj(ref).data["attrs"][attr]
+
+  @native
+  def inserted_at(self, st, lst, item=None):
+    """ghost: position at which the last insert/append put its element"""
+    return st.obj(lst).data["ghost_inserted_at"]
+
+  @native
+  def index_of(self, st, lst, elem):
+    """position of an element value obtained from the list (None for None)"""
+    from .values import SElem
+    if elem is None:
+      return None
+    if isinstance(elem, SElem):
+      return elem.idx
+    raise TypeError("index_of: not an element of a symbolic list")
+
+  def slist_len(self, ref):
+    return self.st.obj(ref).data["len"]
+
   def dict(self, d):
     from .models import hashkey
     return self.st.alloc("dict", dict, dict((hashkey(k_), (k_, v)) for k_, v in d.items()))
@@ -265,6 +347,17 @@ class SymBuilder(BuilderBase):
       elif kind == "real":
         v = model.eval(h, model_completion=True)
         out[name] = float(v.numerator_as_long()) / float(v.denominator_as_long())
+      elif kind == "slist":
+        n, arrs = h
+        nn = max(0, min(model.eval(n, model_completion=True).as_long(), 64))
+        elems = []
+        for i in range(nn):
+          e = {}
+          for a, arr in arrs.items():
+            v = model.eval(z3.Select(arr, i), model_completion=True)
+            e[a] = z3.is_true(v) if z3.is_bool(v) else v.as_long()
+          elems.append(e)
+        out[name] = elems
       else:
         f, length = h
         n = length if isinstance(length, int) else model.eval(length, model_completion=True).as_long()
@@ -398,6 +491,33 @@ class ConcBuilder(BuilderBase):
 
   def list(self, items):
     return list(items)
+
+  def slist(self, name, attrs, maxlen=None, make=None):
+    """concrete counterpart of SymBuilder.slist: `make(i, attrvals)` builds element i with the given values of
+    the tracked attributes (from a solver model), or with attrvals None a random element"""
+    if self.values is not None:
+      spec = self.values.get(name, [])
+      return [make(i, e) for i, e in enumerate(spec)]
+    n = self._rand_int(0, maxlen if maxlen is not None else 6)
+    self.drawn[name + ".len"] = n
+    return [make(i, None) for i in range(n)]
+
+  def slist_len(self, lst):
+    return len(lst)
+
+  def inserted_at(self, lst, item=None):
+    for i, e in enumerate(lst):
+      if e is item:
+        return i
+    raise ValueError("item not in list")
+
+  def index_of(self, lst, elem):
+    if elem is None:
+      return None
+    for i, e in enumerate(lst):
+      if e is elem:
+        return i
+    raise ValueError("element not in list")
 
   def dict(self, d):
     return dict(d)
